@@ -40,7 +40,8 @@ type Scenario struct {
 	// closed scope that added flags which were set already
 	FlagHow string `json:"flag_how,omitempty"`
 	// Dest: "" the harness's own unbuffered file writer (appends a record separator) | "filewriter" the package's
-	// slog.NewFileWriter on the same file (child processes only)
+	// slog.NewFileWriter on the same file (child processes only) | "discard" io.Discard (nothing to observe but the
+	// termination itself)
 	Dest string `json:"dest,omitempty"`
 	// Args: the shape of the call's argument list: "" key/value pair | "none" | "attrs" only Attr values | "mixed"
 	Args string `json:"args,omitempty"`
@@ -198,6 +199,9 @@ func childMain(path string) {
 		_ = f.Close()
 		dest = slog.NewFileWriter(path + ".rec")
 	}
+	if s.Dest == "discard" {
+		dest = io.Discard // a silenced logger still terminates
+	}
 	lg := setup(s, dest)
 	ep := epByName(s.EP)
 	res := childResult{Testing: !vlib.ProductionMode()}
@@ -326,6 +330,9 @@ func runChild(t vlib.TB, test string, s Scenario, dir string) {
 
 func judge(t vlib.TB, test string, s Scenario, admit, terminate bool, rec []byte, nrec int, status int, haveRes bool, res childResult, stderr string) {
 	complete := nrec == 1 && bytes.Contains(rec, []byte(s.Msg)) && bytes.HasSuffix(rec, []byte("\n"))
+	if s.Dest == "discard" {
+		complete = true // nothing can be observed at an io.Discard destination
+	}
 	switch {
 	case terminate && slog.Level(s.R) == slog.FatalLevel:
 		if status != 253 {
@@ -436,7 +443,7 @@ func TestChildSampled(t *testing.T) {
 		s.Prod = rapid.Bool().Draw(t, "production")
 		s.FlagHow = rapid.SampledFrom([]string{"set", "set", "addremove", "scope", "restored", "redundant"}).Draw(t, "flagHow")
 		s.Msg = "c12 " + rapid.StringMatching(`[a-z]{1,8}( [a-z]{1,5}){0,2}`).Draw(t, "msg")
-		s.Dest = rapid.SampledFrom([]string{"", "", "filewriter"}).Draw(t, "destination")
+		s.Dest = rapid.SampledFrom([]string{"", "", "filewriter", "discard"}).Draw(t, "destination")
 		s.Args = rapid.SampledFrom(argShapes).Draw(t, "argumentShape")
 		s.BenchArg = rapid.IntRange(0, 3).Draw(t, "benchArgument") == 0
 		runChild(t, "TestChildSampled", s, dir)
@@ -468,7 +475,7 @@ func TestChildMatrix(t *testing.T) {
 								}
 								total++
 								runChild(t, "TestChildMatrix", Scenario{EP: ep, R: int(r), L: L, NoInterrupt: ni, InterruptAlways: ia,
-									Format: f, Prod: prod, Msg: fmt.Sprintf("matrix cell %d", idx), Dest: []string{"", "filewriter"}[idx%2], Args: argShapes[idx%len(argShapes)], BenchArg: idx%3 == 0}, dir)
+									Format: f, Prod: prod, Msg: fmt.Sprintf("matrix cell %d", idx), Dest: []string{"", "filewriter", "", "discard"}[idx%4], Args: argShapes[idx%len(argShapes)], BenchArg: idx%3 == 0}, dir)
 							}
 						}
 					}
@@ -497,6 +504,9 @@ func TestInProcess(t *testing.T) {
 		s.FlagHow = rapid.SampledFrom([]string{"set", "set", "addremove", "scope", "restored", "redundant"}).Draw(t, "flagHow")
 		s.Msg = "c12 " + vlib.GenMsg().Draw(t, "msg")
 		s.Args = rapid.SampledFrom(argShapes).Draw(t, "argumentShape")
+		if vlib.Rare(t, "discardDestination", 2) {
+			s.Dest = "discard"
+		}
 		prod := vlib.ProductionMode()
 		s.Prod = prod
 		admit, terminate := expect(s, prod)
@@ -512,6 +522,9 @@ func TestInProcess(t *testing.T) {
 		log := vlib.NewEventLog()
 		w := vlib.NewRec(log, 1, 0)
 		lg := setup(s, w.(io.Writer))
+		if s.Dest == "discard" {
+			lg = setup(s, io.Discard)
+		}
 		ep := epByName(s.EP)
 		var res childResult
 		func() {
